@@ -84,6 +84,18 @@ def gen_framers(rng, tier, seed):
             'bad_at': rng.randrange(12), 'pairs_limit': 64 if tier == 'quick' else 300}
 
 
+def _stream_source_classes(common):
+    """StreamPacketSource and its module-level subclasses in the transports that import here (sorted by name: a stable order)."""
+    import importlib
+    for name in ('serial',):
+        try:
+            importlib.import_module(f'bumble.transport.{name}')
+        except Exception:
+            pass
+    subs = [c for c in common.StreamPacketSource.__subclasses__() if c.__module__.startswith('bumble.transport.') and '<locals>' not in c.__qualname__]
+    return [common.StreamPacketSource] + sorted(subs, key=lambda c: (c.__module__, c.__qualname__))
+
+
 def _chunk(stream, cuts):
     cuts = sorted(set(c for c in cuts if 0 < c < len(stream)))
     out = []
@@ -384,19 +396,23 @@ def run_framers(case):
         # ---- the same stream through the stream transports' protocol object, its chunks arriving at seeded virtual times (pauses of
         # milliseconds to minutes, also in the middle of a packet): time does not move a packet boundary
         if not sim.violations and n >= 2:
-            sink = Sink()
-            src = sim.call(common.StreamPacketSource)
-            src.set_packet_sink(sink)
-            evaluations += 1
             chunks = _chunk(stream, [r.randrange(1, n) for _ in range(r.randint(1, 6))])
-            try:
-                for ch in chunks:
-                    sim.loop.advance(r.choice([0.0, 0.001, 0.3, 1.5, 5.0, 120.0]))
-                    sim.call(src.data_received, ch)
-            except Exception as e:
-                sim.violation_once('timed', f'stream-source:raised-on-well-formed-stream:{type(e).__name__}', repr(e))
-            if sink.got != expected and not sim.violations:
-                sim.violation_once('timed', 'stream-source:different-packets:chunks-spread-over-time', f'{len(sink.got)} packets, expected {len(expected)}; chunk sizes {[len(c) for c in chunks][:6]}')
+            pauses = [r.choice([0.0, 0.001, 0.3, 1.5, 5.0, 120.0]) for _ in chunks]
+            # (the plain source, and every transport's own subclass of it that can be made without a device: the serial one)
+            for cls in _stream_source_classes(common):
+                sink = Sink()
+                src = sim.call(cls)
+                src.set_packet_sink(sink)
+                evaluations += 1
+                tag = '' if cls is common.StreamPacketSource else ':' + cls.__name__
+                try:
+                    for ch, pause in zip(chunks, pauses):
+                        sim.loop.advance(pause)
+                        sim.call(src.data_received, ch)
+                except Exception as e:
+                    sim.violation_once('timed', f'stream-source:raised-on-well-formed-stream:{type(e).__name__}{tag}', repr(e))
+                if sink.got != expected and not sim.violations:
+                    sim.violation_once('timed', f'stream-source:different-packets:chunks-spread-over-time{tag}', f'{len(sink.got)} packets, expected {len(expected)}; chunk sizes {[len(c) for c in chunks][:6]}')
             sim.probe('chunks_spread_over_virtual_time')
 
         # ---- unrecognised type byte at a packet boundary
